@@ -3,45 +3,45 @@ package pkt
 // View is the flat abstract record of a packet that goes into the trace (every field always present
 // so that the TLA+ side can address fields without case analysis).
 type View struct {
-	V      int    `json:"v"`
-	Src    string `json:"src"`
-	Dst    string `json:"dst"`
-	Proto  int    `json:"proto"`
-	TTL    int    `json:"ipttl"`
-	IPID   int    `json:"ipid"`
-	IPOpt  int    `json:"ipopt"`
-	LenOK  bool   `json:"len_ok"`
-	CsumOK bool   `json:"csum_ok"`
-	Kind   string `json:"kind"` // echo_req echo_rep te du icmp_other tcp udp other malformed
-	IType  int    `json:"itype"`
-	ICode  int    `json:"icode"`
-	EID    int    `json:"eid"`
-	ESeq   int    `json:"eseq"`
-	SPort  int    `json:"sport"`
-	DPort  int    `json:"dport"`
-	Seq    [2]int `json:"seq"` // 32-bit values as [hi16, lo16]: TLC integers are 32-bit signed
-	Ack    [2]int `json:"ack"`
-	Flags  int    `json:"flags"`
+	V      int      `json:"v"`
+	Src    string   `json:"src"`
+	Dst    string   `json:"dst"`
+	Proto  int      `json:"proto"`
+	TTL    int      `json:"ipttl"`
+	IPID   int      `json:"ipid"`
+	IPOpt  int      `json:"ipopt"`
+	LenOK  bool     `json:"len_ok"`
+	CsumOK bool     `json:"csum_ok"`
+	Kind   string   `json:"kind"` // echo_req echo_rep te du icmp_other tcp udp other malformed
+	IType  int      `json:"itype"`
+	ICode  int      `json:"icode"`
+	EID    int      `json:"eid"`
+	ESeq   int      `json:"eseq"`
+	SPort  int      `json:"sport"`
+	DPort  int      `json:"dport"`
+	Seq    [2]int   `json:"seq"` // 32-bit values as [hi16, lo16]: TLC integers are 32-bit signed
+	Ack    [2]int   `json:"ack"`
+	Flags  int      `json:"flags"`
 	Sack   [][2]int `json:"sack"`
-	SackOK bool   `json:"sackperm"`
-	TS     bool   `json:"ts"`
-	ULen   int    `json:"ulen"` // v4: UDP length, v6: IPv6 payload length (the UDPv6 probe identifier)
-	Q      bool   `json:"q"`    // ICMP error with a decodable quoted header + 8 bytes
-	QSrc   string `json:"q_src"`
-	QDst   string `json:"q_dst"`
-	QProto int    `json:"q_proto"`
-	QTTL   int    `json:"q_ttl"`
-	QIPID  int    `json:"q_ipid"`
-	QSPort int    `json:"q_sport"`
-	QDPort int    `json:"q_dport"`
-	QSeq   [2]int `json:"q_seq"`
-	QEID   int    `json:"q_eid"`
-	QESeq  int    `json:"q_eseq"`
-	QULen  int    `json:"q_ulen"`
-	QL4    int    `json:"q_l4"` // quoted L4 bytes present
-	QHdr   bool   `json:"q_hdr"`  // the quoted IP header itself decodes
-	QEcho  bool   `json:"q_echo"` // first quoted L4 byte is an echo request/reply type
-	Size   int    `json:"size"`
+	SackOK bool     `json:"sackperm"`
+	TS     bool     `json:"ts"`
+	ULen   int      `json:"ulen"` // v4: UDP length, v6: IPv6 payload length (the UDPv6 probe identifier)
+	Q      bool     `json:"q"`    // ICMP error with a decodable quoted header + 8 bytes
+	QSrc   string   `json:"q_src"`
+	QDst   string   `json:"q_dst"`
+	QProto int      `json:"q_proto"`
+	QTTL   int      `json:"q_ttl"`
+	QIPID  int      `json:"q_ipid"`
+	QSPort int      `json:"q_sport"`
+	QDPort int      `json:"q_dport"`
+	QSeq   [2]int   `json:"q_seq"`
+	QEID   int      `json:"q_eid"`
+	QESeq  int      `json:"q_eseq"`
+	QULen  int      `json:"q_ulen"`
+	QL4    int      `json:"q_l4"`   // quoted L4 bytes present
+	QHdr   bool     `json:"q_hdr"`  // the quoted IP header itself decodes
+	QEcho  bool     `json:"q_echo"` // first quoted L4 byte is an echo request/reply type
+	Size   int      `json:"size"`
 }
 
 // U32 splits a 32-bit value into 16-bit halves.
